@@ -4,6 +4,7 @@ import (
 	"bytes"
 	"fmt"
 	"math"
+	"sync"
 )
 
 // https://github.com/golang/net/blob/5a444b4f2fe893ea00f0376da46aa5376c3f3e28/http2/http2.go#L112-L119
@@ -27,6 +28,12 @@ type HeaderField struct {
 }
 
 type HTTP2FingerprintingFrames struct {
+	// mu guards the fields below. They are written by the goroutine that
+	// serves the HTTP2 connection while request handlers of the same
+	// connection read them concurrently; use the Set*/Add* methods to
+	// write and Marshal/String to read.
+	mu sync.RWMutex
+
 	// Data from SETTINGS frame
 	Settings []Setting
 
@@ -40,12 +47,50 @@ type HTTP2FingerprintingFrames struct {
 	Headers []HeaderField
 }
 
+// SetSettings records the settings of the latest SETTINGS frame.
+func (f *HTTP2FingerprintingFrames) SetSettings(settings []Setting) {
+	f.mu.Lock()
+	defer f.mu.Unlock()
+	f.Settings = settings
+}
+
+// SetWindowUpdateIncrementOnce records the increment of the first
+// WINDOW_UPDATE frame; later frames are ignored.
+func (f *HTTP2FingerprintingFrames) SetWindowUpdateIncrementOnce(increment uint32) {
+	f.mu.Lock()
+	defer f.mu.Unlock()
+	if f.WindowUpdateIncrement == 0 {
+		f.WindowUpdateIncrement = increment
+	}
+}
+
+// AddPriority records a PRIORITY frame.
+func (f *HTTP2FingerprintingFrames) AddPriority(priority Priority) {
+	f.mu.Lock()
+	defer f.mu.Unlock()
+	f.Priorities = append(f.Priorities, priority)
+}
+
+// SetHeaders records the latest header block and, if the HEADERS frame
+// carried priority information, that priority, in one step.
+func (f *HTTP2FingerprintingFrames) SetHeaders(headers []HeaderField, priority *Priority) {
+	f.mu.Lock()
+	defer f.mu.Unlock()
+	f.Headers = headers
+	if priority != nil {
+		f.Priorities = append(f.Priorities, *priority)
+	}
+}
+
 func (f *HTTP2FingerprintingFrames) String() string {
 	return f.Marshal(math.MaxUint)
 }
 
 // TODO: add tests
 func (f *HTTP2FingerprintingFrames) Marshal(maxPriorityFrames uint) string {
+	f.mu.RLock()
+	defer f.mu.RUnlock()
+
 	var buf bytes.Buffer
 
 	// SETTINGS frame
